@@ -10,7 +10,7 @@ from .. import gen
 from ..common import Outcome
 from ..model import SCM
 from ..sem import Evaluator, FreeVariable, MultiWorld, Undefined
-from ..y0util import CallTrace, V, build_graph, graph_key, graph_sample
+from ..y0util import CallTrace, V, build_graph, graph_key, graph_sample, one_or_many
 
 ID = "C01"
 RULE = (
@@ -68,10 +68,12 @@ def run_id(graph, xs, ys):
     """Call y0; returns (estimand or None, exception or None, call counts)."""
     from y0.algorithm.identify import id_std, identify_outcomes
 
-    from ..y0util import ReentryGuard, identification_key
+    from ..y0util import ReentryGuard, identification_key, one_or_many
 
     with CallTrace(id_std, ["line_1", "line_2", "line_3", "line_4", "line_7", "p_parents"]) as tr, ReentryGuard(id_std, "identify", identification_key) as rg:
-        xset, yset = {V(x) for x in xs}, {V(y) for y in ys}
+        # a single treatment / outcome is passed bare every other time (the parameters are typed Variable | set)
+        k = len(graph.nodes()) + len(xs) + 2 * len(ys) + sum(map(len, xs + ys))
+        xset, yset = one_or_many([V(x) for x in xs], k), one_or_many([V(y) for y in ys], k // 2)
         try:
             est = identify_outcomes(graph, xset, yset)
             exc = None
